@@ -17,7 +17,7 @@ ASSUMPTIONS = ["rv/ref/sm.py is the trusted reading of the .sm format",
                "rows shorter than the chart's key count are tolerated (StepMania pads) and counted"]
 
 CLASSES = ["tempo_on_measure_lines", "tempo_on_measure_lines", "tempo_off_measure", "tempo_off_measure", "single_tempo",
-           "selectable_false", "leading_empty_measures", "big_lcm", "unsorted", "from_read", "from_read", "rated"]
+           "selectable_false", "leading_empty_measures", "big_lcm", "unsorted", "from_read", "from_read", "rated", "odd_mix", "write_edit_write"]
 
 
 def gen(rng, tier, k):
@@ -67,6 +67,28 @@ def run(ctx, case):
         ms.write()
     except Exception:
         pass
+    if case["cls"] == "write_edit_write":
+        # the same mapset object, edited in place between two writes: everything delayed by d, then the tempo doubled
+        # around the first tempo point (both edits keep the mapset inside the writer's domain)
+        try:
+            d = 37.5
+            for m in ms.maps:
+                for tl in m.objs.values():
+                    if len(tl):
+                        tl.offset += d
+            ms.offset += d
+            ms.write()
+            t0 = ms.offset
+            for m in ms.maps:
+                for tl in m.objs.values():
+                    if len(tl):
+                        tl.offset = (tl.offset - t0) / 2 + t0
+                        if "length" in tl.df.columns:
+                            tl.length /= 2
+                m.bpms.bpm *= 2
+            ms.write()
+        except Exception:
+            ctx.counters["c03|edit_sequence_raised"] += 1
     if ctx.cur_k is not None and ctx.cur_k % 4 == 1:
         from rv.monitors import fileio
         fileio.check_write_file(ctx, "C03", ms, kind="text")
